@@ -297,17 +297,31 @@ func Explore(run RunFunc, opt Options, st *Stats) {
 	if opt.Cache {
 		cache = NewCache()
 	}
+	// a pending node is its parent's choice list (shared by all children of that execution) cut after at points and
+	// followed by alt; the prefix is only written out when the node is run, so the pending stack stays small
 	type node struct {
-		prefix []int
-		cost   int
-		level  int
-		owned  bool // subtree owned by this shard
+		base  []int
+		at    int
+		alt   int
+		root  bool
+		cost  int
+		level int
+		owned bool // subtree owned by this shard
 	}
-	stack := []node{{prefix: nil, owned: opt.Of <= 1}}
+	stack := []node{{root: true, owned: opt.Of <= 1}}
 	splitCtr := 0
+	// the point and cost buffers of an execution are dead once its children are pushed: the next execution reuses them
+	var pointBuf []Point
+	var arenaBuf []int8
 	for len(stack) > 0 {
 		nd := stack[len(stack)-1]
 		stack = stack[:len(stack)-1]
+		var prefix []int
+		if !nd.root {
+			prefix = make([]int, nd.at+1)
+			copy(prefix, nd.base[:nd.at])
+			prefix[nd.at] = nd.alt
+		}
 		if !opt.Deadline.IsZero() && time.Now().After(opt.Deadline) {
 			st.Exhaustive = false
 			st.CapHit = "internal deadline"
@@ -323,13 +337,14 @@ func Explore(run RunFunc, opt Options, st *Stats) {
 			st.CapHit = fmt.Sprintf("execution cap %d", opt.MaxExecs)
 			break
 		}
-		e := &Exec{Prefix: nd.prefix, cache: cache}
+		e := &Exec{Prefix: prefix, cache: cache, Points: pointBuf[:0], arena: arenaBuf[:0]}
 		v := run(e)
+		pointBuf, arenaBuf = e.Points, e.arena
 		if e.Pruned || v.Pruned {
 			v.Pruned = true
 		}
-		if len(e.Points) < len(nd.prefix) {
-			panic(fmt.Sprintf("explore: replay diverged: execution ended after %d points, prefix has %d", len(e.Points), len(nd.prefix)))
+		if len(e.Points) < len(prefix) {
+			panic(fmt.Sprintf("explore: replay diverged: execution ended after %d points, prefix has %d", len(e.Points), len(prefix)))
 		}
 		// nodes above the split level are executed by every shard but counted by shard 0 only
 		count := nd.owned || opt.Shard == 0
@@ -354,7 +369,8 @@ func Explore(run RunFunc, opt Options, st *Stats) {
 		// children, pushed so that the shallowest deviation of the lowest alternative is explored first;
 		// at the split level they are dealt round-robin to the shards (every shard sees the same order)
 		split := !nd.owned && nd.level+1 == opt.SplitLevel
-		for i := len(e.Points) - 1; i >= len(nd.prefix); i-- {
+		var base []int
+		for i := len(e.Points) - 1; i >= len(prefix); i-- {
 			p := e.Points[i]
 			for alt := p.N - 1; alt >= 1; alt-- {
 				c := nd.cost
@@ -373,12 +389,13 @@ func Explore(run RunFunc, opt Options, st *Stats) {
 					}
 					owned = true
 				}
-				child := make([]int, i+1)
-				for k := 0; k < i; k++ {
-					child[k] = e.Points[k].Chosen
+				if base == nil {
+					base = make([]int, i)
+					for k := range base {
+						base[k] = e.Points[k].Chosen
+					}
 				}
-				child[i] = alt
-				stack = append(stack, node{prefix: child, cost: c, level: nd.level + 1, owned: owned})
+				stack = append(stack, node{base: base, at: i, alt: alt, cost: c, level: nd.level + 1, owned: owned})
 			}
 		}
 	}
